@@ -336,8 +336,9 @@ def write_evidence(prop, tier, base, agg, nviol, known_hits, extra=None):
         faults_fired=dict(agg["faults"]),
         probes=dict(agg["probes"]),
         features=dict(sorted(agg["features"].items())[:120]),
-        abstract_states=len([x for x in agg["states"] if not str(x).startswith("kp:")]),
+        abstract_states=len([x for x in agg["states"] if not str(x).startswith(("kp:", "sweep:"))]),
         distinct_kill_points=len([x for x in agg["states"] if str(x).startswith("kp:")]),
+        sweep_points=len([x for x in agg["states"] if str(x).startswith("sweep:")]),
         diagnostics=dict(step_cap_runs=agg["outcomes"].get("step_cap", 0), harness_errors=len(agg["harness"])),
         determinism_selfcheck=dict(runs_compared=agg["det_checked"], mismatches=len(agg["det_mismatch"]),
                                    how="same seeds re-run in a fresh interpreter with PYTHONHASHSEED=77; full event digests compared"),
